@@ -47,6 +47,10 @@ BASE_KINDS = [
     ["symbolanon", "polygon", "polyline"],
     ["text"],
     ["gop:rect+circle", "gop:stroked+lingrad"],
+    # documents that already contain ignorable content (so one more insertion interacts with it)
+    ["rect", "titledesc"],
+    ["titledesc", "gop:rect+circle", "pi", "titledesc"],
+    ["pi", "lingrad", "comment", "foreignel", "titledesc"],
 ]
 
 G_PARENTS = {"svg", "g", "defs", "symbol"}
@@ -122,6 +126,7 @@ def positions(root):
                             continue
                         ops.append(("wrap", ei, ci, span))
     ops.append(("xmldecl", 0, 0, 0))
+    ops.append(("xmldecl-sameline", 0, 0, 0))
     ops.append(("pi-before-root", 0, 0, 0))
     return ops
 
@@ -146,11 +151,15 @@ def apply_ops(doc, ops):
         elif kind in ("title", "desc"):
             n = etree.Element(tag(kind))
             n.text = "noise text"
+            if kind == "desc":
+                etree.SubElement(n, tag("title")).text = "t in desc"
             el.insert(ci, n)
         elif kind == "metadata":
             n = etree.Element(tag("metadata"))
             r = etree.SubElement(n, "{http://www.w3.org/1999/02/22-rdf-syntax-ns#}RDF")
             etree.SubElement(r, "{http://purl.org/dc/elements/1.1/}title").text = "x"
+            etree.SubElement(n, tag("title")).text = "nested title"
+            etree.SubElement(n, tag("desc")).text = "nested desc"
             el.insert(ci, n)
         elif kind == "foreignel":
             n = etree.Element("{%s}junk" % FOREIGN, nsmap={"nz": FOREIGN})
@@ -180,6 +189,8 @@ def apply_ops(doc, ops):
             el.insert(el.index(kids[0]), g)
             for c in kids:
                 g.append(c)
+        elif kind == "xmldecl-sameline":
+            prefix = '<?xml version="1.0" encoding="UTF-8"?>' + prefix
         elif kind == "xmldecl":
             prefix = '<?xml version="1.0" encoding="UTF-8" standalone="no"?>\n' + prefix
         elif kind == "pi-before-root":
